@@ -15,6 +15,7 @@ are used with the right *byte* layouts, that `Arc`'s counter is atomic and the a
 same operations may run on another thread) is checked dynamically (tracking allocator) or trusted (DESIGN §2).
 -/
 import MetricsVerif.Proofs.Cow
+import MetricsVerif.Proofs.CowSend
 import MetricsVerif.Generated.SourceFacts
 
 namespace MetricsVerif.C14
@@ -703,13 +704,19 @@ theorem src_ctor_lifetimes :
          ("impl<T> Cow<'_, T> where T: Cowable + ?Sized,", "pub fn from_shared(arc: Arc<T>) -> Self"),
          ("impl<T> Cow<'_, T> where T: Cowable + ?Sized,", "pub fn into_owned(self) -> <T as ToOwned>::Owned")] := rfl
 
-/-- **`Send` / `Sync`**: the only `unsafe impl`s of the file, each bounded by the SAME auto trait on `T`
-    (`Sync` for `Sync`, `Send` for `Send`) — the instantiations the harness can run (`str`, `Label`, `D`) are all
-    `Send + Sync` and cannot tell; the harness additionally refuses to compile if `Cow<[Rc<_>]>` is `Send`/`Sync` -/
+/-- **`Send` / `Sync`**: the only `unsafe impl`s of the file, and the bounds each puts on `T` as the thread model
+    reads them (`CowSend.Bound.ofTokens`): BOTH ask for `T: Sync + Send`, the bounds of `std::sync::Arc<T>` — the
+    only sound ones (`sound_iff_arc_bounds`).  The code as found asked `Sync` for `Sync` and `Send` for `Send` only
+    (`CowSend.sameTraitBounds`): `sameTraitBounds_unsound`.  The instantiations the harness can run (`str`, `Label`,
+    `D`) are all `Send + Sync` and cannot tell; the decision table over element types that lack one or both traits is
+    compared with the compiler's on every run (ops `cow autotrait`, type probes). -/
 theorem src_send_sync_bounds :
     Generated.cow_auto_trait_impls
-      = ["UNSAFE impl<T: Cowable + Sync + ?Sized> Sync for Cow<'_, T>",
-         "UNSAFE impl<T: Cowable + Send + ?Sized> Send for Cow<'_, T>"] := rfl
+      = ["UNSAFE impl<T: Cowable + Sync + Send + ?Sized> Sync for Cow<'_, T>",
+         "UNSAFE impl<T: Cowable + Sync + Send + ?Sized> Send for Cow<'_, T>"]
+    ∧ (⟨CowSend.Bound.ofTokens Generated.cow_send_bound_tokens,
+        CowSend.Bound.ofTokens Generated.cow_sync_bound_tokens⟩ : CowSend.Impls) = CowSend.arcBounds :=
+  ⟨rfl, by decide⟩
 
 /-- **conversion to `std::borrow::Cow`**: the impl still has the implicit `T: Sized` bound (no `?Sized`), which no
     implementor of `Cowable` meets — it cannot be called, which is why no correspondence stream drives it; and
@@ -754,8 +761,8 @@ theorem src_trait_methods :
          ("impl<A, B> PartialEq<Cow<'_, B>> for Cow<'_, A> where A: Cowable + ?Sized, B: Cowable + ?Sized, A: PartialEq<B>,", "eq"),
          ("impl<T> fmt::Debug for Cow<'_, T> where T: Cowable + fmt::Debug + ?Sized,", "fmt"),
          ("impl<T> fmt::Display for Cow<'_, T> where T: Cowable + fmt::Display + ?Sized,", "fmt"),
-         ("UNSAFE impl<T: Cowable + Sync + ?Sized> Sync for Cow<'_, T>", "-"),
-         ("UNSAFE impl<T: Cowable + Send + ?Sized> Send for Cow<'_, T>", "-"),
+         ("UNSAFE impl<T: Cowable + Sync + Send + ?Sized> Sync for Cow<'_, T>", "-"),
+         ("UNSAFE impl<T: Cowable + Sync + Send + ?Sized> Send for Cow<'_, T>", "-"),
          ("impl Metadata", "len capacity kind shared borrowed owned"),
          ("impl Cowable for str", "borrowed_into_parts owned_into_parts shared_into_parts borrowed_from_parts owned_from_parts clone_from_parts drop_from_parts"),
          ("impl<T> Cowable for [T] where T: Clone,", "borrowed_into_parts owned_into_parts shared_into_parts borrowed_from_parts owned_from_parts clone_from_parts drop_from_parts")] := rfl
@@ -777,6 +784,147 @@ theorem src_forwarding :
          ("PartialEq::eq", "self.deref() == other.deref()"),
          ("fmt::Debug::fmt", "self.deref().fmt(f)"),
          ("fmt::Display::fmt", "self.deref().fmt(f)")] := rfl
+
+/-! ## threads: which element types may cross (`Model/CowSend.lean`)
+
+The clause "values can be sent to and dropped on other threads".  `Cow` holds a `NonNull`, so what may cross a
+thread boundary is decided by the two `unsafe impl`s alone; the model takes their bounds as a parameter, lets any
+number of threads construct, clone, move (`Send`), lend (`Sync`), give back and drop values of all three kinds, and
+asks whether a state is reachable in which the promise of an auto trait of the ELEMENT type is broken: two threads
+holding `&T` to the same `T: !Sync` objects at once (`racy`), or `T: !Send` objects owned / destroyed by a thread
+that did not create them (`misplaced`). -/
+
+section Threads
+open MetricsVerif.CowSend
+
+/-- **the repaired bounds are sound**: with `T: Sync + Send` asked by both impls (the bounds of `Arc<T>`), for EVERY
+    element type (whatever auto traits it has or lacks), every number of threads and every sequence of
+    constructions, clones, moves, loans and drops, no two threads ever reach the same `!Sync` objects and no `!Send`
+    object is ever owned or destroyed away from its thread -/
+theorem arc_bounds_safe (e : Elem) (ops : List CowSend.Op) :
+    violates e (CowSend.run arcBounds e CowSend.init ops) = false := by
+  cases he : (e.send && e.sync) with
+  | false => exact atHome_not_violates (run_atHome he ops _ atHome_init) e
+  | true =>
+    have h1 : e.send = true := by cases hs : e.send <;> simp_all
+    have h2 : e.sync = true := by cases hs : e.sync <;> simp_all
+    simp [violates, racy, misplaced, h1, h2]
+
+/-- **`Send` must ask for `T: Sync`** (the defect found in the code; RUSTSEC-2020-0122 class): whatever else the impls
+    ask, if `Send for Cow` does not ask for `Sync`, then for `T = Cell<_>` (`Send`, not `Sync`) a Shared value is
+    cloned and the clone MOVED to thread 1 — threads 0 and 1 now both hold `&T` to the same cells.
+    Replayed on the real code: /tmp witness in REPORT.md (lost updates, heap corruption with `RefCell<String>`). -/
+theorem send_needs_sync (im : Impls) (h : im.send.needSync = false) :
+    racy ⟨true, false⟩ (CowSend.run im ⟨true, false⟩ CowSend.init [.fromShared 0 false, .clone 0 0, .send 1 1]) = true := by
+  obtain ⟨⟨a, b⟩, ⟨c, d⟩⟩ := im
+  simp only at h; subst h
+  cases a <;> cases c <;> cases d <;> decide
+
+/-- the same through the Borrowed kind: the caller keeps the `Vec` it borrowed from, the value goes to thread 1 -/
+theorem send_needs_sync_borrowed (im : Impls) (h : im.send.needSync = false) :
+    racy ⟨true, false⟩ (CowSend.run im ⟨true, false⟩ CowSend.init [.fromBorrowed 0, .send 0 1]) = true := by
+  obtain ⟨⟨a, b⟩, ⟨c, d⟩⟩ := im
+  simp only at h; subst h
+  cases a <;> cases c <;> cases d <;> decide
+
+/-- `Send` must ask for `T: Send`: an Owned value of `!Send` elements moved to another thread -/
+theorem send_needs_send (im : Impls) (h : im.send.needSend = false) :
+    misplaced ⟨false, true⟩ (CowSend.run im ⟨false, true⟩ CowSend.init [.fromOwned 0, .send 0 1]) = true := by
+  obtain ⟨⟨a, b⟩, ⟨c, d⟩⟩ := im
+  simp only at h; subst h
+  cases b <;> cases c <;> cases d <;> decide
+
+/-- `Sync` must ask for `T: Sync`: a `&Cow` handed to thread 1 is a `&T` there, while thread 0 keeps its own -/
+theorem sync_needs_sync (im : Impls) (h : im.sync.needSync = false) :
+    racy ⟨true, false⟩ (CowSend.run im ⟨true, false⟩ CowSend.init [.fromOwned 0, .lend 0 1]) = true := by
+  obtain ⟨⟨a, b⟩, ⟨c, d⟩⟩ := im
+  simp only at h; subst h
+  cases a <;> cases b <;> cases c <;> decide
+
+/-- `Sync` must ask for `T: Send` (as `Arc<T>: Sync` does): through a lent `&Cow` thread 1 clones a Shared value —
+    an `Arc::increment_strong_count` — and keeps the clone; thread 0 drops the original first; the LAST reference is
+    dropped on thread 1, which destroys `!Send` objects made on thread 0 -/
+theorem sync_needs_send (im : Impls) (h : im.sync.needSend = false) :
+    (CowSend.run im ⟨false, true⟩ CowSend.init
+        [.fromShared 0 false, .lend 0 1, .clone 1 0, .unlend 0 1, .drop 0 0, .drop 1 1]).destroyed = [(⟨0, 0⟩, 1)]
+    ∧ misplaced ⟨false, true⟩ (CowSend.run im ⟨false, true⟩ CowSend.init
+        [.fromShared 0 false, .lend 0 1, .clone 1 0, .unlend 0 1, .drop 0 0, .drop 1 1]) = true := by
+  obtain ⟨⟨a, b⟩, ⟨c, d⟩⟩ := im
+  simp only at h; subst h
+  cases a <;> cases b <;> cases d <;> decide
+
+/-- **exactly the `Arc` bounds**: a pair of impls is sound for every element type, thread count and operation
+    sequence if and only if both ask for `T: Sync + Send` -/
+theorem sound_iff_arc_bounds (im : Impls) :
+    (∀ (e : Elem) (ops : List CowSend.Op), violates e (CowSend.run im e CowSend.init ops) = false) ↔ im = arcBounds := by
+  constructor
+  · intro hall
+    obtain ⟨⟨a, b⟩, ⟨c, d⟩⟩ := im
+    have hb : b = true := by
+      cases hb : b with
+      | true => rfl
+      | false =>
+        have := send_needs_sync ⟨⟨a, b⟩, ⟨c, d⟩⟩ hb
+        have h2 := hall ⟨true, false⟩ [.fromShared 0 false, .clone 0 0, .send 1 1]
+        simp [violates, this] at h2
+    have ha : a = true := by
+      cases ha : a with
+      | true => rfl
+      | false =>
+        have := send_needs_send ⟨⟨a, b⟩, ⟨c, d⟩⟩ ha
+        have h2 := hall ⟨false, true⟩ [.fromOwned 0, .send 0 1]
+        simp [violates, this] at h2
+    have hd : d = true := by
+      cases hd : d with
+      | true => rfl
+      | false =>
+        have := sync_needs_sync ⟨⟨a, b⟩, ⟨c, d⟩⟩ hd
+        have h2 := hall ⟨true, false⟩ [.fromOwned 0, .lend 0 1]
+        simp [violates, this] at h2
+    have hc : c = true := by
+      cases hc : c with
+      | true => rfl
+      | false =>
+        have := (sync_needs_send ⟨⟨a, b⟩, ⟨c, d⟩⟩ hc).2
+        have h2 := hall ⟨false, true⟩ [.fromShared 0 false, .lend 0 1, .clone 1 0, .unlend 0 1, .drop 0 0, .drop 1 1]
+        simp [violates, this] at h2
+    subst ha hb hc hd
+    rfl
+  · intro h e ops
+    subst h
+    exact arc_bounds_safe e ops
+
+/-- **the bounds the code had** (`Sync` for `Sync`, `Send` for `Send`) are unsound, in both directions:
+    a Shared `Cow<[Cell<_>]>` is cloned and one copy sent away (two threads, one set of cells), and a Shared value
+    of `Sync + !Send` elements is cloned through a `&Cow` on another thread which then drops last -/
+theorem sameTraitBounds_unsound :
+    (∃ e ops, violates e (CowSend.run sameTraitBounds e CowSend.init ops) = true)
+    ∧ racy ⟨true, false⟩ (CowSend.run sameTraitBounds ⟨true, false⟩ CowSend.init
+        [.fromShared 0 false, .clone 0 0, .send 1 1]) = true
+    ∧ racy ⟨true, false⟩ (CowSend.run sameTraitBounds ⟨true, false⟩ CowSend.init [.fromBorrowed 0, .send 0 1]) = true
+    ∧ misplaced ⟨false, true⟩ (CowSend.run sameTraitBounds ⟨false, true⟩ CowSend.init
+        [.fromShared 0 false, .lend 0 1, .clone 1 0, .unlend 0 1, .drop 0 0, .drop 1 1]) = true :=
+  ⟨⟨⟨true, false⟩, [.fromShared 0 false, .clone 0 0, .send 1 1], by decide⟩, by decide, by decide, by decide⟩
+
+/-- **the impls of the source tree are sound**: the bounds the translator reads from cow.rs, fed to the thread
+    model, admit no violation — for every element type, thread count and operation sequence -/
+theorem cow_send_sync_sound (e : Elem) (ops : List CowSend.Op) :
+    violates e (CowSend.run ⟨Bound.ofTokens Generated.cow_send_bound_tokens,
+                            Bound.ofTokens Generated.cow_sync_bound_tokens⟩ e CowSend.init ops) = false := by
+  rw [src_send_sync_bounds.2]
+  exact arc_bounds_safe e ops
+
+/-- non-vacuity: with sound bounds and `Send + Sync` elements values really do travel — moved, lent, cloned and
+    dropped on other threads (the last drop of a Shared value happens away from home) — and nothing is violated -/
+example : (let s := CowSend.run arcBounds ⟨true, true⟩ CowSend.init
+                     [.fromShared 0 false, .clone 0 0, .send 1 1, .lend 0 2, .clone 2 0, .unlend 0 2, .drop 0 0, .drop 1 1, .drop 2 2]
+           s.destroyed == [(⟨0, 0⟩, 2)] && !violates ⟨true, true⟩ s && s.vals.all (·.isNone)) = true := by decide
+
+/-- non-vacuity: for `Cell` elements the sound bounds refuse the move — the value stays where it was -/
+example : (CowSend.run arcBounds ⟨true, false⟩ CowSend.init [.fromShared 0 false, .clone 0 0, .send 1 1]).vals
+    = [some ⟨⟨0, 0⟩, .shared, 0, []⟩, some ⟨⟨0, 0⟩, .shared, 0, []⟩] := by decide
+
+end Threads
 
 /-! ## non-vacuity: concrete sequences (evaluated by the kernel) -/
 
